@@ -72,7 +72,32 @@ def emissionOp (args : List String) : Option String :=
         ++ fF (eclipse f (planck k col.nu tstar) rp rs) ++ " " ++ fF (direct k.pi f rp dist pc) ++ " " ++ fF fu)
     pure (fList id perCol ++ " " ++ fList (fun b => fB b.1 ++ " " ++ fB b.2) fl)) args
 
+/-- `c02.contrib consts cols dz dens temps` → per column (wavenumber) the contribution function `tau[:, wn]` that
+    `evaluate_emission` returns as its fourth component (and `model()` as its third) -/
+def contribOp (args : List String) : Option String :=
+  run (do
+    let k ← pcP
+    let cols ← colsP
+    let dz ← listOf flt
+    let dens ← listOf flt
+    let temps ← listOf flt
+    let fl := flagsOf cols dz dens temps.length
+    pure (fList (fun col => fList fF (colContrib k fl dz dens temps col)) cols)) args
+
+/-- `c02.partial ncontrib clip` → the calls of `partial_model`, each as `kind a b` (kind 0 initialize_profiles, 1 star.initialize
+    on grid a, 2 contribution a .prepare on grid b, 3 evaluate_emission on grid a) -/
+def partialOp (args : List String) : Option String :=
+  run (do
+    let n ← nat
+    let clip ← nat
+    pure (fList (fun st => match st with
+      | Step.initProfiles => fN 0 ++ " " ++ fN 0 ++ " " ++ fN 0
+      | Step.starInit g => fN 1 ++ " " ++ fN g ++ " " ++ fN 0
+      | Step.prepare i g => fN 2 ++ " " ++ fN i ++ " " ++ fN g
+      | Step.evaluate g => fN 3 ++ " " ++ fN g ++ " " ++ fN 0) (partialModelSteps n (clip != 0)))) args
+
 def ops : List Op :=
-  [("c02.planck", planckOp), ("c02.quad", quadOp), ("c02.emission", emissionOp)]
+  [("c02.planck", planckOp), ("c02.quad", quadOp), ("c02.emission", emissionOp), ("c02.contrib", contribOp),
+   ("c02.partial", partialOp)]
 
 end Taurex.Ops.C02
